@@ -23,6 +23,12 @@ def run(ctx):
     destlib.mc(ctx, "Destination_c06.cfg", dict(small, Mutant="DialInLoop"), expect={"temporal"}, count=False)
     destlib.mc(ctx, "Destination_c06.cfg", dict(small, Mutant="DownDropNoCount"), expect={"Conservation_steady", "SteadyDown"}, count=False)
     destlib.mc(ctx, "Destination_c06.cfg", dict(small, Mutant="DropNoCount"), expect={"Conservation_steady", "SteadyHealthy"}, count=False)
+    # a healthy endpoint that pauses (no progress for a while, then reads everything): the writer blocks, the relay drops
+    # and counts; a relay-side write timeout that closes the connection and discards its queue uncounted is rejected
+    paused = dict(base, InitModes={"paused", "healthy"}, Modes={"paused", "healthy"}, MaxChanges=ctx.pick(1, 2))
+    destlib.mc(ctx, "Destination_c06.cfg", paused)
+    destlib.mc(ctx, "Destination_c06.cfg", dict(paused, InitModes={"paused"}, Modes={"healthy"}, MaxChanges=0, Mutant="WriteTimeoutDrop"),
+               expect={"Conservation_steady", "SteadyHealthy"}, count=False)
 
     # 2. real routes with real destinations against harness endpoints
     scns = destlib.c06_scenarios(ctx)
@@ -36,6 +42,7 @@ def run(ctx):
     touts = [e for e in events if e["ev"] == "timeout"]
     if touts:
         raise Machinery("C06 driver could not reach its steady phase: %s" % json.dumps(touts[:3]))
+    stalls = {e["scn"]: e for e in events if e["ev"] == "stall"}
     lats = [e for e in events if e["ev"] == "lat"]
     phases = [e for e in events if e["ev"] == "phase"]
     if len(lats) != len(scns):
@@ -50,14 +57,33 @@ def run(ctx):
                           "Route.Dispatch took %.3f s (bound 5 s; stuck=%s) with a %s endpoint" % (rec["max_us"] / 1e6, rec["stuck"], s.get("kind")),
                           dict(scenario=s, event=src))
         elif rec["ev"] == "phase":
+            extra = ""
+            st = stalls.get(src.get("scn"))
+            if rec["steady"] == "paused" and st:
+                extra = (" [endpoint stopped reading for %d ms (flush period %d ms) without closing, then read to the end; the relay "
+                         "opened %d connection(s)]" % (st["held_ms"], st["flush_ms"], src.get("accepted", 0)))
             ctx.violation("uncounted-loss steady=%s endpoint=%s" % (rec["steady"], src.get("endpoint")),
-                          "steady phase %s: handed=%d received=%d slow_conn=%d conn_down_no_spool=%d: lines disappeared uncounted (or were over-counted)"
-                          % (rec["steady"], rec["handed"], rec["received"], rec["slow_conn"], rec["down"]),
-                          dict(scenario=s, event=src))
+                          "steady phase %s: handed=%d received=%d slow_conn=%d conn_down_no_spool=%d: lines disappeared uncounted (or were over-counted)%s"
+                          % (rec["steady"], rec["handed"], rec["received"], rec["slow_conn"], rec["down"], extra),
+                          dict(scenario=s, event=src, stall=st))
         else:
             ctx.violation("trace-event " + rec["ev"], "event rejected: %s" % json.dumps(rec), dict(scenario=s, event=src))
 
     ntr, nrej = destlib.validate(ctx, events, on_reject, tagp="06")
+
+    # the stall-resume scenarios must really have blocked the writer (otherwise they say nothing); judged only when
+    # nothing was rejected (a changed relay may never block: that shows in the identity, not here)
+    nstall = [s for s in scns if s["kind"] == "stall"]
+    if not ctx.violations:
+        if len(stalls) != len(nstall):
+            raise Machinery("dead driver: %d stall records for %d stall-resume scenarios" % (len(stalls), len(nstall)))
+        weak = [e for e in stalls.values() if not e["saturated"] or e["held_ms"] < 6 * e["flush_ms"]]
+        if weak:
+            raise Machinery("stall-resume scenario did not block the connection writer for many flush periods: %s" % json.dumps(weak[:2]))
+    for p in phases:
+        if p["steady"] == "paused" and p["down"] > 0:
+            ctx.note("stall-resume scenario %s: the relay saw a down phase although the endpoint never closed (conn_down_no_spool=%d, "
+                     "%d connections accepted); the identity includes that counter" % (p["scn"], p["down"], p["accepted"]))
 
     # 4. binding self-tests (thorough; cheap enough for quick too)
     def m1(recs):
@@ -75,25 +101,33 @@ def run(ctx):
             if r["ev"] == "phase" and r["steady"] == "down":
                 r["down"] -= 1
                 return i
+    def m4(recs):
+        for i, r in enumerate(recs):
+            if r["ev"] == "phase" and r["steady"] == "paused":
+                r["slow_conn"] -= 1
+                return i
     if nrej == 0:
         a = destlib.selftest(ctx, events, m1, "phase", "06a")
         b = destlib.selftest(ctx, events, m2, "lat", "06b")
         c = destlib.selftest(ctx, events, m3, "phase", "06c")
-        if not (a and b and c):
-            raise Machinery("binding self-test could not find a healthy/down/lat event to corrupt")
+        d = destlib.selftest(ctx, events, m4, "phase", "06d")
+        if not (a and b and c and d):
+            raise Machinery("binding self-test could not find a healthy/down/paused/lat event to corrupt")
         ctx.cov["binding_selftests"] = "passed"
 
     cov = ctx.cov
     calls = sum(e["calls"] for e in lats)
     cov["evaluations"] = calls
     steady = [p for p in phases if p["steady"]]
-    nontriv = [p for p in phases if (p["steady"] == "healthy" and p["received"] > 0) or (p["steady"] == "down" and p["down"] > 0)]
+    nontriv = [p for p in phases if (p["steady"] in ("healthy", "paused") and p["received"] > 0) or (p["steady"] == "down" and p["down"] > 0)]
     cov["distinct_nontrivial"] = len(nontriv) + len(lats)
     cov["max_dispatch_us"] = max(e["max_us"] for e in lats)
     cov["steady_phases"] = len(steady)
     cov["slow_conn_drops_in_healthy_phases"] = sum(p["slow_conn"] for p in phases if p["steady"] == "healthy")
+    cov["stall_resume"] = [dict(scn=e["scn"], held_ms=e["held_ms"], flush_ms=e["flush_ms"], blocked_after_lines=e["blocked_at"] - e["stall_at"],
+                                slow_conn_at_resume=e["slow_conn_resume"]) for e in stalls.values()]
     cov["rule"] = ("scenarios = endpoint behaviour (refuse, SYN-drop, black hole, 1 byte/10 ms, healthy, close after k bytes, "
-                   "mixed route with one bad endpoint%s) x (connbuf, iobuf, flush) settings %s, every Route.Dispatch call timed "
+                   "stall-resume (stops reading for >= 12 flush periods with the writer blocked, never closes, reads to the end), mixed route with one bad endpoint%s) x (connbuf, iobuf, flush) settings %s, every Route.Dispatch call timed "
                    "(evaluations = calls); distinct_nontrivial = latency records + steady phases whose identity involved > 0 lines"
                    % ("" if q else ", mid-stream behaviour switches", sorted({(s["connbuf"], s["iobuf"], s["flush_ms"]) for s in scns})))
     bh = [p for p in phases if p["endpoint"] == "blackhole"]
@@ -101,11 +135,14 @@ def run(ctx):
         ctx.note("no black-hole scenario reached the slow_conn drop path (traffic did not exceed the buffers)")
     for e in lats[:1]:
         ctx.sample(dict(lat=e, scenario=byid[e["scn"]]))
-    for p in (nontriv[:1] + [p for p in phases if p["endpoint"] == "blackhole"][:1]):
-        ctx.sample(dict(phase=p))
+    for p in (nontriv[:1] + [p for p in phases if p["endpoint"] == "blackhole"][:1] + [p for p in phases if p["steady"] == "paused"][:1]):
+        ctx.sample(dict(phase=p, stall=stalls.get(p["scn"])) if p["steady"] == "paused" else dict(phase=p))
     ctx.assumptions += ["time bound observed as wall clock: every Route.Dispatch call <= 5 s (normal: microseconds, worst seen on a 9x oversubscribed machine: 0.5 s); a call still "
                         "pending after 12 s is recorded as stuck",
                         "steady phases are declared by the driver only after Snapshot().Online showed the transition; counters "
                         "are read as deltas at quiescence (polled; given up after 60 s without progress)",
-                        "a throttled endpoint that stays connected is treated as healthy once it has caught up"]
+                        "a throttled endpoint that stays connected is treated as healthy once it has caught up",
+                        "stall-resume: 'writer blocked' is observed as no line written to the connection for max(30 ms, 2 flush periods) while "
+                        "lines are being dropped; the pause then lasts max(400 ms, 12 flush periods) longer; identity at quiescence "
+                        "handed = received + slow_conn + conn_down_no_spool (the last is 0 unless the relay gave the connection up)"]
     cov["trusted_base"] = ["TLC", "harness/dest driver (records only)", "kernel loopback TCP"]
